@@ -33,7 +33,12 @@ class Built:
         except Exception as e:
             raise stage_violation(self.scheme_name, "SSEScheme(cfg)", e)
         try:
-            self.key = self.scheme.KeyGen()
+            if case.get("key_pattern"):
+                from vlib.drbg import patterned
+                with patterned(case["key_pattern"]):
+                    self.key = self.scheme.KeyGen()
+            else:
+                self.key = self.scheme.KeyGen()
         except Exception as e:
             raise stage_violation(self.scheme_name, "KeyGen", e)
         try:
